@@ -58,6 +58,7 @@ def render(progs: dict[int, list[str]], uid: str) -> str:
     src = ["import verif_gate", ""]
     for i, prog in sorted(progs.items()):
         src.append(f"def t{i}():")
+        src.append(f"    verif_gate.started('{uid}_{i}')")
         src.append("    x = 0")
         for op in prog:
             if op == "gate":
@@ -73,7 +74,8 @@ def render(progs: dict[int, list[str]], uid: str) -> str:
 
 
 def run_behaviour(args) -> dict:
-    beh, workdir, uid = args
+    beh, workdir, uid = args[:3]
+    type_tracing = len(args) > 3 and args[3]
     import verif_gate  # noqa: PLC0415
 
     from harness.adapters import pyn  # noqa: PLC0415
@@ -86,6 +88,13 @@ def run_behaviour(args) -> dict:
     (Path(workdir) / f"{mod}.py").write_text(src)
     sp, module = pyn.load_sut(mod, workdir)
     executor = pyn.make_executor(sp, TIMEOUT)
+    if type_tracing:
+        # the executor the generator uses when type tracing is on: every test case that does not
+        # time out is executed a second time with proxies
+        from pynguin.analyses.module import generate_test_cluster  # noqa: PLC0415
+        from pynguin.testcase.execution import TypeTracingTestCaseExecutor  # noqa: PLC0415
+
+        executor = TypeTracingTestCaseExecutor(executor, generate_test_cluster(mod), 1.0)
     tree = ast.parse(src)
     frange = {}
     for node in tree.body:
@@ -169,6 +178,7 @@ def run_behaviour(args) -> dict:
             "may_raise": "raise" in prog, "nonterm": bool(nonterm),
             "late": bool(r["elapsed_ms"] > (2 * TIMEOUT + GRACE) * 1000),
             "elapsed_ms": int(r["elapsed_ms"]), "error": r["error"],
+            "starts": verif_gate.starts(f"{uid}_{i}"), "type_tracing": bool(type_tracing),
             "expect_timeout": bool(beh["expect"][i - 1]["timeout"]),
         })
     sys.modules.pop(mod, None)
